@@ -358,6 +358,17 @@ func staleOnBackEdge(in ssa.Instruction, name string) string {
 	// the innermost loop header that dominates the site and has a phi of that name
 	var phi *ssa.Phi
 	for h := b; h != nil && phi == nil; h = h.Idom() {
+		// a loop header has a predecessor that it dominates (the back edge); a join block inside the loop body may have
+		// a phi of the same name, which is not the loop-carried one
+		isHeader := false
+		for _, pr := range h.Preds {
+			if h.Dominates(pr) {
+				isHeader = true
+			}
+		}
+		if !isHeader {
+			continue
+		}
 		for _, x := range h.Instrs {
 			if p, ok := x.(*ssa.Phi); ok && p.Comment == name {
 				phi = p
@@ -386,7 +397,26 @@ func staleOnBackEdge(in ssa.Instruction, name string) string {
 		if !seen[pred] {
 			continue
 		}
-		if phi.Edges[i] == ssa.Value(phi) {
+		// the value carried round the loop, looked at through the join phis between the site and the back edge: only
+		// their edges that can come from the site count
+		var stale func(v ssa.Value, depth int) bool
+		stale = func(v ssa.Value, depth int) bool {
+			if v == ssa.Value(phi) {
+				return true
+			}
+			q, ok := v.(*ssa.Phi)
+			if !ok || q.Block() == header || q.Block() == b || !seen[q.Block()] || depth > 8 {
+				// (a phi at the top of the site's own block joins what happened BEFORE the site)
+				return false
+			}
+			for k, pr := range q.Block().Preds {
+				if seen[pr] && k < len(q.Edges) && stale(q.Edges[k], depth+1) {
+					return true
+				}
+			}
+			return false
+		}
+		if stale(phi.Edges[i], 0) {
 			return "after this site the loop continues (edge from block " + fmt.Sprint(pred.Index) + ") with `" + name + "` still holding the value it had before the site"
 		}
 	}
@@ -1097,6 +1127,37 @@ func runUnguardedRules(p *Program, id string) ([]*Gen, []string) {
 						if why := notRegisteredAfter(in, tr); why != "" {
 							o.Pre = "sat"
 							o.Model = why
+						}
+					}
+					// the site must be able to go on to a call of NAME (reaches-call=NAME): e.g. a per-digit accumulation that is
+					// only exact up to a bound is followed by the exact conversion
+					if rc := kv["reaches-call"]; rc != "" {
+						found := false
+						seenB := map[*ssa.BasicBlock]bool{}
+						var walkB func(b *ssa.BasicBlock, from ssa.Instruction)
+						walkB = func(b *ssa.BasicBlock, from ssa.Instruction) {
+							on := from == nil
+							for _, x := range b.Instrs {
+								if on {
+									if _, ok := siteMatches(p, "call "+rc, x); ok {
+										found = true
+									}
+								}
+								if x == from {
+									on = true
+								}
+							}
+							for _, sx := range b.Succs {
+								if !seenB[sx] {
+									seenB[sx] = true
+									walkB(sx, nil)
+								}
+							}
+						}
+						walkB(in.Block(), in)
+						if !found {
+							o.Pre = "sat"
+							o.Model = "no call of " + rc + " can follow this site"
 						}
 					}
 					if tu := kv["then-updates"]; tu != "" {
